@@ -75,18 +75,21 @@ Lemma gv_and_false (v : val) (s : gset string) : foldr andb true (v <$> elements
 Proof. by rewrite fold_andb_false, elem_fmap_elements. Qed.
 Lemma gv_or_true (v : val) (s : gset string) : foldr orb false (v <$> elements s) = true ↔ ∃ p, p ∈ s ∧ v p = true.
 Proof. by rewrite fold_orb_true, elem_fmap_elements. Qed.
+Lemma gate_val_unfold t (v : val) (s : gset string) :
+  gate_val t v s = (if g_inv t then negb else id) (foldr (g_op t) (g_unit t) (v <$> elements s)).
+Proof. unfold gate_val. destruct (g_inv t); simpl; by destruct (foldr _ _ _). Qed.
 Lemma gv_And (v : val) (s : gset string) : gate_val And v s = true ↔ ∀ p, p ∈ s → v p = true.
 Proof.
-  unfold gate_val; simpl. destruct (foldr andb true _) eqn:E.
+  rewrite gate_val_unfold; simpl. destruct (foldr andb true _) eqn:E.
   - split; [|done]. intros _ p Hp. destruct (v p) eqn:Ep; [done|].
     assert (foldr andb true (v <$> elements s) = false) by (apply gv_and_false; eauto). congruence.
   - apply gv_and_false in E as (p & Hp & Ep). split; [done|]. intros H. rewrite H in Ep; done.
 Qed.
 Lemma gv_Or (v : val) (s : gset string) : gate_val Or v s = true ↔ ∃ p, p ∈ s ∧ v p = true.
-Proof. unfold gate_val; simpl. apply gv_or_true. Qed.
+Proof. rewrite gate_val_unfold; simpl. apply gv_or_true. Qed.
 Lemma gv_Nor (v : val) (s : gset string) : gate_val Nor v s = true ↔ ∀ p, p ∈ s → v p = false.
 Proof.
-  unfold gate_val; simpl. rewrite negb_true_iff. destruct (foldr orb false _) eqn:E.
+  rewrite gate_val_unfold; simpl. rewrite negb_true_iff. destruct (foldr orb false _) eqn:E.
   - apply gv_or_true in E as (p & Hp & Ep). split; [done|]. intros H. rewrite H in Ep; done.
   - split; [|done]. intros _ p Hp. destruct (v p) eqn:Ep; [|done].
     assert (foldr orb false (v <$> elements s) = true) by (apply gv_or_true; eauto). congruence.
@@ -97,6 +100,10 @@ Lemma gv_Nor2 (v : val) (a b : string) : gate_val Nor v {[a; b]} = negb (v a || 
 Proof. apply eq_true_iff_eq. rewrite gv_Nor, negb_true_iff, orb_false_iff. set_solver. Qed.
 Lemma gv_single t (v : val) (p : string) : gate_val t v {[p]} = xorb (g_inv t) (g_op t (v p) (g_unit t)).
 Proof. unfold gate_val. by rewrite elements_singleton. Qed.
+Lemma gate_val_inv_or t (v : val) (s : gset string) : g_op t = orb → g_unit t = false → gate_val t v s = xorb (g_inv t) (gate_val Or v s).
+Proof. intros H1 H2. rewrite (gate_val_unfold Or). unfold gate_val. rewrite H1, H2. done. Qed.
+Lemma gate_val_inv t (v : val) (s : gset string) : g_op t = andb → g_unit t = true → gate_val t v s = xorb (g_inv t) (gate_val And v s).
+Proof. intros H1 H2. rewrite (gate_val_unfold And). unfold gate_val. rewrite H1, H2. done. Qed.
 
 (* ================= Kleene folds (all arities) ================= *)
 Section kfold.
@@ -105,18 +112,18 @@ Section kfold.
   Lemma kand_fold l : foldr kand T1 (K3 <$> l) =
     if existsb (λ p, negb (x p) && negb (b p)) l then T0 else if existsb x l then TX else T1.
   Proof.
-    induction l as [|a l IH]; [done|]. simpl. rewrite IH. unfold K3.
+    induction l as [|a l IH]; [done|]. rewrite ?fmap_cons. cbn [foldr existsb]. rewrite IH. unfold K3.
     destruct (x a), (b a), (existsb _ l), (existsb x l); reflexivity.
   Qed.
   Lemma kor_fold l : foldr kor T0 (K3 <$> l) =
     if existsb (λ p, negb (x p) && b p) l then T1 else if existsb x l then TX else T0.
   Proof.
-    induction l as [|a l IH]; [done|]. simpl. rewrite IH. unfold K3.
+    induction l as [|a l IH]; [done|]. rewrite ?fmap_cons. cbn [foldr existsb]. rewrite IH. unfold K3.
     destruct (x a), (b a), (existsb _ l), (existsb x l); reflexivity.
   Qed.
   Lemma kxor_fold l : foldr kxor T0 (K3 <$> l) = if existsb x l then TX else B (foldr xorb false (b <$> l)).
   Proof.
-    induction l as [|a l IH]; [done|]. simpl. rewrite IH. unfold K3.
+    induction l as [|a l IH]; [done|]. rewrite ?fmap_cons. cbn [foldr existsb]. rewrite IH. unfold K3.
     destruct (x a), (b a), (existsb x l), (foldr xorb false _); reflexivity.
   Qed.
 End kfold.
@@ -135,7 +142,7 @@ Lemma B_negb b : B (negb b) = knot (B b). Proof. by destruct b. Qed.
 Section family.
   Context (v : val) (m : string → string).
   Definition Kv (n : string) : tern := if v (m n) then TX else B (v n).
-  Lemma Kv_K3 l : Kv <$> l = K3 (λ p, v (m p)) v <$> l. Proof. done. Qed.
+  Lemma Kv_K3 (l : list string) : Kv <$> l = K3 (λ p, v (m p)) v <$> l. Proof. done. Qed.
 
   (* and / nand: X iff some fan-in is X and none is a definite 0 *)
   Lemma and_family t n (fi : gset string) : t = And ∨ t = Nand →
@@ -161,10 +168,156 @@ Section family.
           destruct (v (m n)) eqn:Em.
           * destruct Hx as [Hx _]. destruct (Hx eq_refl) as [(p & Hp & Ep) _]. rewrite (HX p Hp) in Ep. done.
           * rewrite (proj2 Hand); [done|]. intros p Hp. apply H0; auto. }
-    unfold Kv at 1. destruct Ht as [-> | ->]; unfold kgate; simpl; rewrite <- Hcore, Hn.
+    unfold Kv at 1. rewrite Hn. destruct Ht as [-> | ->]; unfold kgate; cbn [g_inv k_op g_unit B]; rewrite <- Hcore.
     - done.
-    - unfold gate_val at 1. simpl. fold (gate_val And v fi) . destruct (v (m n)); [done|].
-      change (foldr andb true (v <$> elements fi)) with (xorb false (foldr andb true (v <$> elements fi))).
-      fold (gate_val And v fi). apply B_negb.
+    - rewrite (gate_val_inv Nand) by done. simpl. destruct (v (m n)); [done|]. apply B_negb.
+  Qed.
+
+  (* or / nor: X iff some fan-in is X and none is a definite 1 *)
+  Lemma or_family t n (fi : gset string) : t = Or ∨ t = Nor →
+    v n = gate_val t v fi →
+    (v (m n) = true ↔ (∃ p, p ∈ fi ∧ v (m p) = true) ∧ ∀ p, p ∈ fi → v (m p) = false → v p = false) →
+    Kv n = kgate t (Kv <$> elements fi).
+  Proof.
+    intros Ht Hn Hx.
+    assert (Hor : gate_val Or v fi = true ↔ ∃ p, p ∈ fi ∧ v p = true) by apply gv_Or.
+    assert (Hcore : (if v (m n) then TX else B (gate_val Or v fi)) = foldr kor T0 (Kv <$> elements fi)).
+    { rewrite Kv_K3, kor_fold.
+      destruct (existsb (λ p, negb (v (m p)) && v p) (elements fi)) eqn:E1.
+      - apply existsb_elements in E1 as (p & Hp & [E1 E2]%andb_true_iff). apply negb_true_iff in E1.
+        destruct (v (m n)) eqn:Em.
+        + destruct Hx as [Hx _]. destruct (Hx eq_refl) as [_ H]. rewrite (H p Hp E1) in E2. done.
+        + rewrite (proj2 Hor); [done|]. eauto.
+      - assert (H0 : ∀ p, p ∈ fi → v (m p) = false → v p = false).
+        { intros p Hp Hxp. pose proof (proj1 (existsb_elements_false _ _) E1 p Hp) as H. simpl in H.
+          rewrite Hxp in H. by simpl in H. }
+        destruct (existsb (λ p, v (m p)) (elements fi)) eqn:EX.
+        + apply existsb_elements in EX. rewrite (proj2 Hx); [done|]. split; done.
+        + pose proof (proj1 (existsb_elements_false _ _) EX) as HX.
+          destruct (v (m n)) eqn:Em.
+          * destruct Hx as [Hx _]. destruct (Hx eq_refl) as [(p & Hp & Ep) _]. rewrite (HX p Hp) in Ep. done.
+          * destruct (gate_val Or v fi) eqn:Eg; [|done]. destruct (proj1 Hor eq_refl) as (p & Hp & Ep).
+            rewrite (H0 p Hp (HX p Hp)) in Ep. done. }
+    unfold Kv at 1. rewrite Hn. destruct Ht as [-> | ->]; unfold kgate; cbn [g_inv k_op g_unit B]; rewrite <- Hcore.
+    - done.
+    - rewrite (gate_val_inv_or Nor) by done. simpl. destruct (v (m n)); [done|]. apply B_negb.
+  Qed.
+
+  (* xor / xnor: X iff some fan-in is X *)
+  Lemma xor_family t n (fi : gset string) : t = Xor ∨ t = Xnor →
+    v n = gate_val t v fi →
+    (v (m n) = true ↔ ∃ p, p ∈ fi ∧ v (m p) = true) →
+    Kv n = kgate t (Kv <$> elements fi).
+  Proof.
+    intros Ht Hn Hx.
+    assert (Hcore : (if v (m n) then TX else B (gate_val Xor v fi)) = foldr kxor T0 (Kv <$> elements fi)).
+    { rewrite Kv_K3, kxor_fold. rewrite (gate_val_unfold Xor). simpl.
+      destruct (existsb (λ p, v (m p)) (elements fi)) eqn:EX.
+      - apply existsb_elements in EX. by rewrite (proj2 Hx).
+      - pose proof (proj1 (existsb_elements_false _ _) EX) as HX.
+        destruct (v (m n)) eqn:Em; [|done]. destruct (proj1 Hx eq_refl) as (p & Hp & Ep). rewrite (HX p Hp) in Ep. done. }
+    unfold Kv at 1. rewrite Hn. destruct Ht as [-> | ->]; unfold kgate; cbn [g_inv k_op g_unit B]; rewrite <- Hcore.
+    - done.
+    - rewrite (gate_val_unfold Xnor), (gate_val_unfold Xor). simpl. destruct (v (m n)); [done|]. apply B_negb.
+  Qed.
+
+  (* buf / not: the companion follows the companion of the operand *)
+  Lemma buf_family t n p : t = Buf ∨ t = Not →
+    v n = gate_val t v {[p]} → v (m n) = v (m p) →
+    Kv n = kgate t (Kv <$> elements ({[p]} : gset string)).
+  Proof.
+    intros Ht Hn Hx. rewrite elements_singleton. unfold Kv, kgate. simpl. rewrite Hn, Hx, gv_single.
+    destruct Ht as [-> | ->]; simpl; destruct (v (m p)), (v p); reflexivity.
   Qed.
 End family.
+
+(* ================= the gadgets compute the companion conditions ================= *)
+Section gadget_sem.
+  Context (T : circuit) (m : string → string) (v : val).
+  Hypothesis Hv : consistent T v.
+
+  Lemma node_lookup k g s : ty T k = Some g → fanin T k = s → ∃ i, T !! k = Some i ∧ n_ty i = g ∧ n_fi i = s.
+  Proof.
+    unfold ty, fanin. destruct (T !! k) as [i|]; simpl; [|done]. intros [= <-] <-. eauto.
+  Qed.
+  Lemma sem_gate k g s : ty T k = Some g → fanin T k = s → g = And ∨ g = Or ∨ g = Nor → v k = gate_val g v s.
+  Proof.
+    intros H1 H2 Hg. destruct (node_lookup _ _ _ H1 H2) as (i & Hi & Ht & Hs). specialize (Hv k i Hi).
+    unfold node_ok, is_free in Hv. rewrite Ht, Hs in Hv. by destruct Hg as [-> | [-> | ->]].
+  Qed.
+  Lemma sem_single k g p : node_is T k g {[p]} → g = Buf ∨ g = Not → v k = gate_val g v {[p]}.
+  Proof.
+    intros [H1 H2] Hg. destruct (node_lookup _ _ _ H1 H2) as (i & Hi & Ht & Hs). specialize (Hv k i Hi).
+    unfold node_ok, is_free in Hv. rewrite Ht, Hs in Hv.
+    assert (bool_decide (({[p]} : gset string) = ∅) = false) as Hne by (apply bool_decide_eq_false; set_solver).
+    destruct Hg as [-> | ->]; by rewrite Hne in Hv.
+  Qed.
+  Lemma sem_c0 k : node_is T k C0 ∅ → v k = false.
+  Proof.
+    intros [H1 H2]. destruct (node_lookup _ _ _ H1 H2) as (i & Hi & Ht & Hs). specialize (Hv k i Hi).
+    unfold node_ok, is_free in Hv. by rewrite Ht in Hv.
+  Qed.
+
+  Lemma lit0_sem h p : lit0 T m h p → v h = negb (v p || v (m p)).
+  Proof. intros [H1 H2]. rewrite (sem_gate h Nor _ H1 H2) by auto. apply gv_Nor2. Qed.
+  Lemma lit1_sem h p : lit1 T m h p → v h = v p && negb (v (m p)).
+  Proof.
+    intros (H1 & q & Hq & H2 & Hn). rewrite (sem_gate h And _ H1 H2) by auto. rewrite gv_And2.
+    rewrite (sem_single q Not _ Hn) by auto. rewrite gv_single. simpl. by destruct (v (m p)).
+  Qed.
+
+  Lemma ctl_sem (lit : string → string → Prop) (L : string → bool) n (fi : gset string) :
+    (∀ h p, lit h p → v h = L p) → ctl_gadget T m lit n fi →
+    (v (m n) = true ↔ (∃ p, p ∈ fi ∧ v (m p) = true) ∧ ∀ p, p ∈ fi → L p = false).
+  Proof.
+    intros HL (Hty & xn & _ & zn & _ & Hfi & [Hx1 Hx2] & Hz & Hall & Hex).
+    rewrite (sem_gate (m n) And _ Hty Hfi) by auto. rewrite gv_And2, andb_true_iff.
+    rewrite (sem_gate xn Or _ Hx1 Hx2) by auto. rewrite gv_Or.
+    rewrite (sem_gate zn Nor _ Hz eq_refl) by auto. rewrite gv_Nor.
+    split; intros [H1 H2]; split.
+    - destruct H1 as (q & Hq & Eq). apply elem_of_map in Hq as (p & -> & Hp). eauto.
+    - intros p Hp. destruct (Hex p Hp) as (h & Hh & Hlit). rewrite <- (HL _ _ Hlit). by apply H2.
+    - destruct H1 as (p & Hp & Ep). exists (m p). split; [|done]. apply elem_of_map. eauto.
+    - intros h Hh. destruct (Hall h Hh) as (p & Hp & Hlit). rewrite (HL _ _ Hlit). by apply H2.
+  Qed.
+End gadget_sem.
+
+(* ================= whole-circuit theorem over the gadget structure ================= *)
+Theorem tern_shape_sound c T μ : tern_shape c T μ → ∀ v, consistent T v → kconsistent c (kof μ v).
+Proof.
+  intros (Hdom & Hall & _) v Hv n i Hn.
+  destruct (Hall n i Hn) as [HT Hc]. pose proof (Hv n i HT) as Hok.
+  change (kof μ v) with (Kv v (mu_at μ)). set (m := mu_at μ) in *.
+  unfold knode_ok. unfold node_ok, is_free in Hok. unfold comp_ok in Hc.
+  destruct (n_ty i) eqn:Et; try done.
+  - (* buf *) destruct Hc as (p & Hp & Hfi & Hm). rewrite Hfi in *.
+    assert (bool_decide (({[p]} : gset string) = ∅) = false) as Hne by (apply bool_decide_eq_false; set_solver).
+    rewrite Hne in Hok. apply buf_family; auto.
+    rewrite (sem_single T m v Hv (m n) Buf _ Hm) by auto. rewrite gv_single. simpl. by destruct (v (m p)).
+  - (* and *) apply and_family; auto.
+    rewrite (ctl_sem T m v Hv _ (λ p, negb (v p || v (m p))) n (n_fi i) (lit0_sem T m v Hv) Hc).
+    split; intros [H1 H2]; (split; [done|]); intros p Hp; specialize (H2 p Hp); destruct (v p), (v (m p)); naive_solver.
+  - (* or *) apply or_family; auto.
+    rewrite (ctl_sem T m v Hv _ (λ p, v p && negb (v (m p))) n (n_fi i) (lit1_sem T m v Hv) Hc).
+    split; intros [H1 H2]; (split; [done|]); intros p Hp; specialize (H2 p Hp); destruct (v p), (v (m p)); naive_solver.
+  - (* xor *) destruct Hc as [Hne [H1 H2]]. apply xor_family; auto.
+    rewrite (sem_gate T v Hv (m n) Or _ H1 H2) by auto. rewrite gv_Or. split.
+    + intros (q & Hq & Eq). apply elem_of_map in Hq as (p & -> & Hp). eauto.
+    + intros (p & Hp & Ep). exists (m p). split; [|done]. apply elem_of_map. eauto.
+  - (* not *) destruct Hc as (p & Hp & Hfi & Hm). rewrite Hfi in *.
+    assert (bool_decide (({[p]} : gset string) = ∅) = false) as Hne by (apply bool_decide_eq_false; set_solver).
+    rewrite Hne in Hok. apply buf_family; auto.
+    rewrite (sem_single T m v Hv (m n) Buf _ Hm) by auto. rewrite gv_single. simpl. by destruct (v (m p)).
+  - (* nand *) apply and_family; auto.
+    rewrite (ctl_sem T m v Hv _ (λ p, negb (v p || v (m p))) n (n_fi i) (lit0_sem T m v Hv) Hc).
+    split; intros [H1 H2]; (split; [done|]); intros p Hp; specialize (H2 p Hp); destruct (v p), (v (m p)); naive_solver.
+  - (* nor *) apply or_family; auto.
+    rewrite (ctl_sem T m v Hv _ (λ p, v p && negb (v (m p))) n (n_fi i) (lit1_sem T m v Hv) Hc).
+    split; intros [H1 H2]; (split; [done|]); intros p Hp; specialize (H2 p Hp); destruct (v p), (v (m p)); naive_solver.
+  - (* xnor *) destruct Hc as [Hne [H1 H2]]. apply xor_family; auto.
+    rewrite (sem_gate T v Hv (m n) Or _ H1 H2) by auto. rewrite gv_Or. split.
+    + intros (q & Hq & Eq). apply elem_of_map in Hq as (p & -> & Hp). eauto.
+    + intros (p & Hp & Ep). exists (m p). split; [|done]. apply elem_of_map. eauto.
+  - (* 0 *) unfold Kv. rewrite (sem_c0 T v Hv _ Hc), Hok. done.
+  - (* 1 *) unfold Kv. rewrite (sem_c0 T v Hv _ Hc), Hok. done.
+Qed.
